@@ -41,6 +41,7 @@ type Contract struct {
 	Calls     []*CallClause
 	Pure      bool
 	MayPanic  bool
+	NoSafety  bool
 	Trusted   bool // contract is assumed, body not verified (listed in evidence)
 	Fresh     bool // result is freshly allocated
 	Bounded   int
@@ -62,6 +63,7 @@ type SpecFunc struct {
 	Body   *SExpr
 	Src    string
 	Where  string
+	Opaque bool // emitted as an uninterpreted function with a trigger-guarded definitional axiom
 }
 
 type Axiom struct {
@@ -74,7 +76,7 @@ type Axiom struct {
 var clauseKeywords = map[string]bool{
 	"func": true, "ext": true, "spec": true, "abstract": true, "axiom": true, "prop": true,
 	"requires": true, "ensures": true, "assigns": true, "loop": true, "call": true, "pure": true,
-	"may_panic": true, "trusted": true, "bounded": true, "fresh": true, "emits": true, "note": true,
+	"may_panic": true, "nosafety": true, "trusted": true, "bounded": true, "fresh": true, "emits": true, "note": true,
 }
 
 var labelRe = regexp.MustCompile(`^@([A-Za-z0-9_\-./]+)\s+`)
@@ -282,6 +284,9 @@ func (e *Engine) readContractFile(path, pkgKey string) error {
 			case "pure":
 				cur.Pure = true
 				cur.HasAssign = true
+			case "nosafety":
+				cur.NoSafety = true
+				cur.Notes = append(cur.Notes, "safety obligations not generated: "+rest)
 			case "may_panic":
 				cur.MayPanic = true
 			case "trusted":
@@ -336,14 +341,19 @@ func splitTop(s string) []string {
 	return out
 }
 
-var specHeadRe = regexp.MustCompile(`^([A-Za-z_][A-Za-z0-9_]*)\s*\(([^)]*)\)\s*([A-Za-z]*)\s*(=\s*(.*))?$`)
+var specHeadRe = regexp.MustCompile(`^([A-Za-z_][A-Za-z0-9_]*)\s*\(([^)]*)\)\s*([A-Za-z\[\]\*\.]*)\s*(=\s*(.*))?$`)
 
 func parseSpecFunc(kw, rest, where string) (*SpecFunc, error) {
+	opaque := false
+	if strings.HasPrefix(rest, "opaque ") {
+		opaque = true
+		rest = strings.TrimSpace(rest[len("opaque "):])
+	}
 	m := specHeadRe.FindStringSubmatch(rest)
 	if m == nil {
 		return nil, fmt.Errorf("%s: malformed %s declaration: %q", where, kw, rest)
 	}
-	sf := &SpecFunc{Name: m[1], Ret: m[3], Where: where, Src: rest}
+	sf := &SpecFunc{Name: m[1], Ret: m[3], Where: where, Src: rest, Opaque: opaque}
 	if sf.Ret == "" {
 		sf.Ret = "bool"
 	}
